@@ -3,7 +3,9 @@ import random
 from vlib import *
 import streams
 
-THEOREMS = ["header_step_shift", "filler_prefix", "unified_section_stops"]
+THEOREMS = ["header_step_shift", "filler_prefix", "unified_section_stops",
+            "section_state_independent", "loop_state_independent", "loop_state_independent_nobackup", "loop_fuel_irrelevant",
+            "loop_sum", "run_sum", "unified_two_runs", "concatenation_is_sequence", "text_in_front", "text_after"]
 
 
 def hunks_of(line):
